@@ -82,3 +82,83 @@ func TestC19RaceBatches(t *testing.T) {
 		t.Errorf("client saw %d requests, expected %d", cl.calls, batches*n+batches)
 	}
 }
+
+// failingClient fails the recipients whose path index is even: half of them with a 500 answer, half
+// with a transport error that names the URL.
+type failingClient struct{ calls int64 }
+
+func failsAt(u *url.URL) int {
+	var b, i int
+	fmt.Sscanf(u.Host, "r%d.example", &b)
+	fmt.Sscanf(u.Path, "/u/%d/inbox", &i)
+	if i%2 != 0 {
+		return 0
+	}
+	if i%4 == 0 {
+		return 1
+	}
+	return 2
+}
+
+func (c *failingClient) Do(req *http.Request) (*http.Response, error) {
+	atomic.AddInt64(&c.calls, 1)
+	if req.Body != nil {
+		ioutil.ReadAll(req.Body)
+	}
+	switch failsAt(req.URL) {
+	case 1:
+		return &http.Response{StatusCode: 500, Status: "500 Internal Server Error", Body: ioutil.NopCloser(bytes.NewReader(nil))}, nil
+	case 2:
+		return nil, fmt.Errorf("dial %s: connection refused", req.URL)
+	}
+	return &http.Response{StatusCode: 202, Status: "202 Accepted", Body: ioutil.NopCloser(bytes.NewReader(nil))}, nil
+}
+
+// TestC19RaceFailingBatches: overlapping batches in which many recipients fail at the same time; every
+// batch must return an error that names each failed recipient, and nothing may race.
+func TestC19RaceFailingBatches(t *testing.T) {
+	key, err := rsa.GenerateKey(rand.Reader, 1024)
+	if err != nil {
+		t.Fatal(err)
+	}
+	gs, _, _ := httpsig.NewSigner([]httpsig.Algorithm{httpsig.RSA_SHA256}, httpsig.DigestSha256, []string{"(request-target)", "host", "date"}, httpsig.Signature)
+	ps, _, _ := httpsig.NewSigner([]httpsig.Algorithm{httpsig.RSA_SHA256}, httpsig.DigestSha256, []string{"(request-target)", "host", "date", "digest"}, httpsig.Signature)
+	cl := &failingClient{}
+	tp := pub.NewHttpSigTransport(cl, "app", clk{}, gs, ps, "key", key)
+	batches, n, rounds := 4, 48, 6
+	if os.Getenv("VERIF_TIER") == "thorough" {
+		rounds = 40
+	}
+	for round := 0; round < rounds; round++ {
+		var wg sync.WaitGroup
+		for b := 0; b < batches; b++ {
+			wg.Add(1)
+			go func(b int) {
+				defer wg.Done()
+				var rs []*url.URL
+				for i := 0; i < n; i++ {
+					u, _ := url.Parse(fmt.Sprintf("https://r%d.example/u/%d/inbox", b, i))
+					rs = append(rs, u)
+				}
+				err := tp.BatchDeliver(context.Background(), []byte(fmt.Sprintf(`{"batch":%d}`, b)), rs)
+				if err == nil {
+					t.Errorf("batch %d: no error although half of the recipients failed", b)
+					return
+				}
+				for _, u := range rs {
+					named := bytes.Contains([]byte(err.Error()), []byte(u.String()+" ")) || bytes.Contains([]byte(err.Error()), []byte(u.String()+":"))
+					if failsAt(u) != 0 && !named {
+						t.Errorf("batch %d: failed recipient %s is not named by the batch error", b, u)
+					}
+					if failsAt(u) == 0 && named {
+						t.Errorf("batch %d: recipient %s succeeded but is named as a failure", b, u)
+					}
+				}
+			}(b)
+		}
+		wg.Wait()
+	}
+	if want := int64(rounds * batches * n); cl.calls != want {
+		t.Errorf("client saw %d requests, expected %d (every recipient exactly once)", cl.calls, want)
+	}
+}
